@@ -205,6 +205,24 @@ def fluent_name(f) -> str:
     return norm(rep[3:rep.rindex(" ")])
 
 
+def via_trajectory_parser(world, state, with_problem=True):
+    """rebuild every fact and every fluent of `state` the way TrajectoryParser builds them: given the problem (facts and
+    fluents annotated with the objects' own types) or without it (annotated with the declared parameter types)"""
+    from pddl_plus_parser.lisp_parsers import TrajectoryParser
+    parser = TrajectoryParser(world.domain, world.problem if with_problem else None)
+    for key, facts in list(state.state_predicates.items()):
+        state.state_predicates[key] = {
+            parser.parse_grounded_predicate(_ast(gp.untyped_representation), world.domain.predicates[gp.name]) for gp in facts}
+    rebuilt = {}
+    for key, fl in state.state_fluents.items():
+        nf = parser.parse_grounded_numeric_fluent(_ast(fluent_name(fl)))
+        nf.set_value(fl.value)
+        rebuilt[nf.untyped_representation] = nf
+    state.state_fluents.clear()
+    state.state_fluents.update(rebuilt)
+    return state
+
+
 def state_digest(state):
     """(frozenset of atoms, dict key -> value object) without forcing symbolic values."""
     return state_atoms(state), {k: f.value for k, f in state.state_fluents.items()}
